@@ -473,7 +473,26 @@ func firstDroppingExit(fn *ssa.Function, src errSource, al map[ssa.Value]bool) s
 				return
 			}
 		}
-		for _, s := range b.Succs {
+		// a branch on a flag returned by the same call: where the flag is false the callee reported no error,
+		// if it only ever returns an error together with a true flag
+		skip := -1
+		if ifi, ok := b.Instrs[len(b.Instrs)-1].(*ssa.If); ok && len(b.Succs) == 2 {
+			cond, neg := stripNot(ifi.Cond)
+			if ex, ok := cond.(*ssa.Extract); ok && isBasicKind(ex.Type(), types.Bool) {
+				if sv, ok := src.val.(*ssa.Extract); ok && ex.Tuple == sv.Tuple {
+					if c, ok := ex.Tuple.(*ssa.Call); ok && errorImpliesFlag(c.Call.StaticCallee(), sv.Index, ex.Index) {
+						skip = 1 // the edge on which the flag is false
+						if neg {
+							skip = 0
+						}
+					}
+				}
+			}
+		}
+		for i, s := range b.Succs {
+			if i == skip {
+				continue
+			}
 			if !seen[s] {
 				seen[s] = true
 				walk(s, 0)
@@ -488,6 +507,36 @@ func firstDroppingExit(fn *ssa.Function, src errSource, al map[ssa.Value]bool) s
 	}
 	walk(start, idx)
 	return drop
+}
+
+// errorImpliesFlag: every return of g whose result errIdx may be a non-nil error has the constant
+// true as result flagIdx ("res, known, err": an error is only reported together with known).
+func errorImpliesFlag(g *ssa.Function, errIdx, flagIdx int) bool {
+	if g != nil && g.Origin() != nil && len(g.Origin().Blocks) > 0 {
+		g = g.Origin() // an instance (or, from a generic body, a wrapper): judge the generic function itself
+	}
+	if g == nil || len(g.Blocks) == 0 || !inModule(g) {
+		return false
+	}
+	n := 0
+	for _, b := range g.Blocks {
+		ret, ok := b.Instrs[len(b.Instrs)-1].(*ssa.Return)
+		if !ok {
+			continue
+		}
+		if errIdx >= len(ret.Results) || flagIdx >= len(ret.Results) {
+			return false
+		}
+		n++
+		if isNilConst(ret.Results[errIdx]) {
+			continue
+		}
+		c, isC := ret.Results[flagIdx].(*ssa.Const)
+		if !isC || c.Value == nil || c.Value.Kind() != constant.Bool || !constant.BoolVal(c.Value) {
+			return false
+		}
+	}
+	return n > 0
 }
 
 type nonNilResult struct {
